@@ -168,14 +168,18 @@ def dash_curve(els, offset, pattern):
         # length of the output by the crate-independent oracle of C03
         from .c03 import true_length
         got = 0.0
-        last = None
+        last = start = None
         for e in out:
             if e[0] == 'M':
-                last = e[1]
+                last = start = e[1]
             elif e[0] in 'LQC':
                 l, _ = true_length([last] + list(e[1:]))
                 got += l
                 last = e[-1]
+            elif e[0] == 'Z' and start is not None:
+                # ClosePath draws the closing line and moves the current point back to the start of the sub-path
+                got += math.hypot(last[0] - start[0], last[1] - start[1])
+                last = start
         if abs(got - want) > 1e-4 * max(1.0, L):
             return f'dashed length {got!r} differs from the on-length {want!r} (path length {L!r})'
         if engine_error(f) or not f.startswith('ok'):
@@ -247,3 +251,80 @@ def generate(rng, tier):
             els.append((k,) + tuple((rng.uniform(-5, 5), rng.uniform(-5, 5)) for _ in range({'L': 1, 'Q': 2, 'C': 3}[k])))
         pat = [rng.uniform(0.2, 3.0) for _ in range(rng.randint(1, 4))]
         yield dash_curve(els, rng.uniform(0, 2 * sum(pat)), pat)
+    # a CLOSED curved sub-path that lies entirely inside the first dash (first dash longer than the perimeter): the output must be the whole sub-path
+    for _ in range(6 if tier == 'quick' else 200):
+        p0 = (rng.uniform(-5, 5), rng.uniform(-5, 5))
+        els = [('M', p0)]
+        for _ in range(rng.randint(2, 3)):
+            k = rng.choice('QC')
+            els.append((k,) + tuple((rng.uniform(-5, 5), rng.uniform(-5, 5)) for _ in range({'Q': 2, 'C': 3}[k])))
+        if rng.random() < 0.7:
+            els[-1] = els[-1][:-1] + (p0,)      # the last curve returns exactly to the start (as the outline of a circle does): ClosePath adds no closing line
+        els.append(('Z',))
+        c = dash_curve(els, 0.0, [rng.choice([500.0, 1000.0]), rng.uniform(0.5, 2.0)])
+        c.stratum = 'closed-inside-first-dash'
+        yield c
+
+
+def _first_dash_state(offset, pattern):
+    """(remaining length of the interval the pattern is in after `offset`, is it an 'on' interval): dash_impl's initial phase"""
+    ix, rem, on = 0, pattern[0] - offset, True
+    guard = 0
+    while rem < 0 and guard < 100000:
+        ix = (ix + 1) % len(pattern)
+        rem += pattern[ix]
+        on = not on
+        guard += 1
+    return rem, on
+
+
+def closed_subpath_inside_first_dash(els, offset, pattern):
+    """root cause predicate (input only): some sub-path ends with ClosePath, has at least two drawn segments, returns to its start point by itself
+    (so that ClosePath contributes no closing line and the last SEGMENT is a drawn one) and its whole perimeter is not longer than what is left of
+    the FIRST 'on' dash (the phase is reset at every sub-path): DashIterator::step then appends the ClosePath to the stash BEFORE the last segment
+    of the sub-path, which comes out after it, drawn from the start point (`M C C C Z C` for a circle)"""
+    if not pattern:
+        return False
+    rem, on = _first_dash_state(offset, pattern)
+    if not on:
+        return False
+    cur, start, length, nseg = None, None, 0.0, 0
+    for e in els:
+        if e[0] == 'M':
+            cur = start = e[1]
+            length, nseg = 0.0, 0
+        elif e[0] in 'LQC' and cur is not None:
+            pts = [cur] + [tuple(q) for q in e[1:]]
+            n = 64
+            prev = pts[0]
+            for i in range(1, n + 1):
+                t = i / n
+                q = pts
+                while len(q) > 1:
+                    q = [((1 - t) * a[0] + t * b[0], (1 - t) * a[1] + t * b[1]) for a, b in zip(q, q[1:])]
+                length += math.hypot(q[0][0] - prev[0], q[0][1] - prev[1])
+                prev = q[0]
+            cur = pts[-1]
+            nseg += 1
+        elif e[0] == 'Z' and cur is not None:
+            total = length + math.hypot(cur[0] - start[0], cur[1] - start[1])
+            if nseg >= 2 and tuple(cur) == tuple(start) and total <= rem * (1 + 1e-9) + 1e-12:
+                return True
+            cur = start
+            length, nseg = 0.0, 0
+    return False
+
+
+def dash_closed_inside_first(case, outs, verdict):
+    """known finding C13-closed-subpath-inside-first-dash (see `closed_subpath_inside_first_dash`)"""
+    if verdict.startswith('CORR'):
+        return False
+    a = case.meta.get('args', [])
+    if case.meta.get('maker') == 'dash_curve':
+        return closed_subpath_inside_first_dash(a[0], a[1], a[2])
+    if case.meta.get('maker') == 'dash_poly':
+        return closed_subpath_inside_first_dash(a[0], a[1], a[2])
+    return False
+
+
+KNOWN_CLASSES = {'dash_closed_inside_first': dash_closed_inside_first}
